@@ -167,6 +167,15 @@ class C17(Spec):
             b['ch'] = None if nd == 1 else ['c%d' % i for i in range(shape[-2])]
             off = rng.choice([0, 10])
             b['md'] = [off + i for i in range(shape[0])] if nd == 3 else 7
+            # batches DERIVED by a montage matrix (mc_reference, `matrix @ data`): the result keeps the source's label
+            # list, so the number of labels need not equal the channel axis -- what counts is the data's channel axis
+            r = rng.random()
+            if nd == 3 and shape[1] == 1 and shape[0] > 0 and r < 0.15:
+                b['route'] = 'matmul'            # (ne, 2, nt) source, matrix [[1, 0]] -> one channel, two labels
+                b['ch'] = ['c0', 'c1']
+            elif nd == 3 and shape[1] == 2 and r < 0.5:
+                b['route'] = 'fanout'            # (ne, 1, nt) source, matrix [[1], [1]] -> two channels, one label
+                b['ch'] = ['c0']
         return b
 
     def cases(self, rng, tier):
@@ -248,7 +257,8 @@ class C17(Spec):
                 if rng.random() < 0.5:
                     b['threp'] = rng.choice(['int', 'np64', 'np32', 'npint', 'arr0d'])
                 # item 2: construction route of an annotated batch
-                if b['annot'] and len(b['shape']) == 3 and b['shape'][1] == 1 and rng.random() < 0.5:
+                if b['annot'] and len(b['shape']) == 3 and b['shape'][1] == 1 and rng.random() < 0.5 \
+                        and b.get('route') not in ('matmul', 'fanout'):
                     b['route'] = rng.choice(['concat', 'slice', 'tslice', 'pos', 'defaults'] if b['shape'][0] else ['slice', 'tslice', 'pos', 'defaults'])
                     if b['route'] == 'defaults':
                         b['ch'] = [None]
@@ -369,6 +379,15 @@ class C17(Spec):
             pad = np.zeros(tuple(b['shape'][:-1]) + (2,), dtype=data.dtype)
             x = P.PipelineData(np.concatenate([pad + 99, data, pad - 99], axis=-1), fs=fs, s0=b['s0'] - 2, channel=ch, metadata=md)
             return x[..., 2:2 + b['shape'][-1]]
+        if route == 'matmul':
+            # one channel derived from a two-channel recording by a 1x2 montage matrix: the result keeps BOTH labels
+            src = np.concatenate([data, data * 0 + 99], axis=1)
+            x = P.PipelineData(src.astype(float), fs=fs, s0=b['s0'], channel=ch, metadata=md)
+            return np.array([[1.0, 0.0]]) @ x
+        if route == 'fanout':
+            # two channels derived from a one-channel recording by a 2x1 matrix: a genuine two-channel batch, one label
+            x = P.PipelineData(data[:, :1].astype(float), fs=fs, s0=b['s0'], channel=ch, metadata=md)
+            return np.array([[1.0], [1.0]]) @ x
         if route == 'pos':
             return P.PipelineData(data, fs, b['s0'], ch, md)
         if route == 'defaults':
